@@ -20,7 +20,7 @@ func init() {
 			"second life h2 from a fixed menu {Close; Flush Close; W(small) Close; W(same data as h1) Close; W(small) Flush W(small) Close; W(3*fill) Close}; " +
 			"oracle: bytes sent to the new sink and every returned error identical to a fresh Writer of the same setting running h2, nothing written after the last Reset to the old sink or to any sink given up earlier, output decodes; non-trivial = h1 wrote at least one byte",
 		Assumptions: []string{"the fresh Writer is the reference model"},
-		Quick:       TierSpec{MaxDev: -1, Shards: 4, ShardDepth: 3, BudgetS: 150},
+		Quick:       TierSpec{MaxDev: -1, Shards: 4, ShardDepth: 3, BudgetS: 600},
 		Thorough:    TierSpec{MaxDev: -1, Shards: 8, ShardDepth: 3, BudgetS: 1700},
 		Harness:     c12Harness,
 	})
